@@ -69,6 +69,77 @@ CLAIMED = {
         "(consecutive variable ids, checked by the harness); ill-typed arguments and 0-sized inner frames are outside the model.",
         "Lean 4 theorems (index arithmetic) + exhaustive small-scope correspondence",
         "DESIGN.md §5 C14"),
+    "C01": (
+        "Kernel-checked theorems: C01_translation_faithful (for EVERY well-typed tree -- all operators, any arity incl. 0/1, "
+        "Python literals, constant-only forms, any nesting -- the model of z3.py::_convert_expr succeeds and the z3 term, or the "
+        "Python constant z3py folds to, means exactly what the tree means under every assignment), C01_z3_backend_correct (for any "
+        "correct z3 the backend returns a genuine in-bounds model or, only when none exists, UNSAT), C01_find_answer_exact and "
+        "C01_session (after EVERY prefix of any interleaving of declare/ensure/add_answer_key/find_answer the verdict is exactly the "
+        "satisfiability of the program accumulated by that prefix, and sol is a model). Tie: programs built through the REAL DSL; "
+        "the real _convert_expr result evaluated by z3 under random assignments vs the model's term semantics vs the reference eval; "
+        "real find_answer('z3') verdict/sol vs enumeration by the Lean eval.",
+        "Relative to a correct z3 (explicit hypothesis Z3Oracle.Correct). Trusted: Lean kernel + standard axioms; `eval` as the "
+        "'ordinary meaning'; z3py coercion rules as modelled (ZV/ZT, validated by the correspondence); DSL construction itself is "
+        "covered by C12, not here.",
+        "Lean 4 theorems (structural induction on trees, induction over operation histories) + differential correspondence",
+        "DESIGN.md §5 C01"),
+    "C02": (
+        "Kernel-checked theorems for every correct backend, every well-typed program and every key subset: C02_exact (solve() returns "
+        "True iff satisfiable, never raises, and each key's sol is v iff every model gives v, None iff two models disagree), "
+        "C02_terminates (the refute-and-re-solve loop stops within #keys+1 refuting solves; the model's fuel is never exhausted). The "
+        "native deduction route is covered under C03. Tie: real Solver.solve driven by a mock backend class whose returned models "
+        "are chosen by the PRNG, the same oracle answers drive the Lean loop; plus real solve('z3') vs the Lean enumeration spec.",
+        "Relative to a correct backend (Backend.Correct). Trusted: Lean kernel + standard axioms; `eval`; the hand-written model of "
+        "Solver.solve (tied by correspondence); a real loop that does not return within 10 s is reported as non-termination.",
+        "Lean 4 theorems (loop invariant + termination measure) + differential correspondence",
+        "DESIGN.md §5 C02"),
+    "C06": (
+        "Kernel-checked theorems for all loop-free multigraphs, all well-typed edge-flag expressions and assignments, both routes: "
+        "C06_cycle_aux / C06_cycle_prim (satisfiable iff the active edges are empty or form exactly one simple cycle given as a cyclic "
+        "sequence of distinct vertices and edges -- incl. the 2-cycle of parallel edges -- and is_passed is true exactly at visited "
+        "vertices in every model), the degree-form versions, C06_regular_is_cycle / C06_regular_is_path (pure graph theory, proved), "
+        "C06_path (primitive-only path constraint: one simple path with >= 1 edge, or empty as documented), "
+        "C06_path_aux_unimplemented. Frame form: the edge list / lattice graph conversion is C14_graph. Tie: program equality "
+        "(line-graph edge sets canonicalised) incl. frames; search over all edge subsets with forced-value checks of is_passed.",
+        "Trusted: Lean kernel + standard axioms; Mathlib Reachable; `eval`/`evalAVC`; hand-written generator model tied by program "
+        "equality; self-loops excluded (loop-free hypothesis).",
+        "Lean 4 theorems (certificate layer + graph theory incl. cycle extraction) + program-equality correspondence",
+        "DESIGN.md §5 C06"),
+    "C08": (
+        "PARTIAL. Kernel-checked for all graphs / all board shapes: C08_not_adjacent_graph, C08_not_adjacent_grid (shifted-slice form = "
+        "pairwise form on the grid graph, 1xN and Nx1 included), C08_segmenting_graph (generic route = no adjacent actives and inactive "
+        "vertices connected), C08_grid_line (single-row/column boards), and for h,w >= 2: C08_grid_diag_sound + C08_grid_diag_complete "
+        "(the specialised diagonal-rank program is satisfiable iff the pattern is non-adjacent and the diagonal chains of active cells "
+        "form a forest touching the border at most once -- including the rank-range (h*w-1)//2 corner). NOT proved: the planar lemma "
+        "statement_planar (diagonal forest iff inactive cells connected, a discrete Jordan-curve fact), hence statement_grid for "
+        "h,w >= 2 is not claimed as a theorem; the thorough tier compares both encodings on every pattern of every board with "
+        "h*w <= 16 on the real code, labelled as a bounded test of that one lemma.",
+        "Trusted: Lean kernel + standard axioms; Mathlib IsAcyclic/Preconnected; generator models tied by program equality; the planar "
+        "lemma is an unproved, explicitly stated gap.",
+        "Lean 4 theorems (partial: planar lemma open) + program-equality correspondence + bounded exhaustive differential",
+        "DESIGN.md §5 C08"),
+    "C10": (
+        "Kernel-checked theorems for ALL frame sizes, both modes and both routes: C10_exact_aux / C10_exact_prim (the emitted program "
+        "is satisfiable iff every lattice point meets 0,1,2 or 4 active segments (0,2,4 for a cycle; 4 only at interior points) and all "
+        "active segments belong to one strand, where segments continue each other at points of degree <= 2 and straight pairs pass "
+        "through 4-way points; the returned arrays are exactly 'visited' and '4-way'), incl. the identification of split-graph "
+        "connectivity with strand connectivity; C10_total. Tie: program equality incl. the 3-nodes-per-point auxiliary graph.",
+        "Trusted: Lean kernel + standard axioms; Mathlib Reachable; hand-written model of active_edges_connected_crossable tied by "
+        "program equality; statement is for the frame's own fresh edge variables.",
+        "Lean 4 theorems (local rules + reduction to C04 + strand/split-graph identification) + program-equality correspondence",
+        "DESIGN.md §5 C10"),
+    "C12": (
+        "Kernel-checked theorems for all shapes (1-D, 2-D, empty, 1xN), all operand contents and assignments: C12_pointwise (every "
+        "infix/reflected/unary/then/cond form through the full Python operator dispatch yields the operand shape with element i = op of "
+        "the operand elements in semantic order; literals act as constants), C12_rejects (wrong-kind operand => TypeError, shape "
+        "mismatch => ValueError), C12_count_true / C12_fold_or / C12_fold_and / C12_alldifferent over arbitrary nestings, C12_conv2d, "
+        "C12_four_neighbors, C12_scalar_dispatch, and C12_dunder_table: a 7041-row table of (receiver class x operator form x operand "
+        "kind) -> (operator, operand order) or exception, REGENERATED from the live classes on every run and re-checked by the kernel "
+        "against the model. Tie: regenerated table + correspondence on random shapes/values.",
+        "Trusted: Lean kernel + standard axioms; `eval`; the model of CPython's binary-operator dispatch; conv2d with negative window "
+        "sizes and four_neighbors on out-of-range cells are modelled and correspondence-checked but not specified.",
+        "Lean 4 theorems + kernel-checked regenerated dispatch table + differential correspondence",
+        "DESIGN.md §5 C12"),
 }
 
 NOT_YET = "machinery for this property is still under construction in this round (model/theorems not yet committed)"
